@@ -224,6 +224,7 @@ def run(ctx):
 
     many_contigs(ctx)
     retried_partitions(ctx)
+    init_sweep(ctx)
     r = ctx.rnd
     for i in range(ctx.n(60, 600)):
         seed = ctx.seed * 11 + 70000 + i
@@ -293,6 +294,48 @@ def run(ctx):
                 ctx.traces_validated += 1
         finally:
             shutil.rmtree(d, ignore_errors=True)
+
+
+def init_sweep(ctx):
+    """the variants axis holds every record for EVERY partition count: dencode-init of one store with chunk size 1 / 2 (15..61
+    variant chunks) for every target partition count 1..chunks+1 -- the arrays are created with partitions[-1].stop rows --, and
+    complete distributed encodes for a few of them"""
+    from bio2zarr import vcf2zarr
+    import zarr
+
+    r = ctx.rnd
+    d = os.path.join(ctx.work, "c02_sweep")
+    os.makedirs(d)
+    try:
+        n = r.choice([15, 30, 60, 61]) if ctx.quick else r.choice([15, 30, 45, 60, 61, 75])
+        hdr = ['##contig=<ID=chr1,length=100000>', '##FILTER=<ID=PASS,Description="p">', '##FORMAT=<ID=GT,Number=1,Type=String,Description="g">']
+        recs = [f"chr1\t{10 + 7 * i}\t.\tA\tC\t.\tPASS\t.\tGT\t0/1\t1|1" for i in range(n)]
+        p = vcfgen.make_indexed(d, "in", vcfgen.vcf_text(hdr, recs, ["s0", "s1"]), kind="tbi")
+        icf = os.path.join(d, "s.icf")
+        vcf2zarr.explode(icf, [p], worker_processes=0)
+        for vcs in (1, 2):
+            nchunks = -(-n // vcs)
+            full = set(r.sample(range(1, nchunks + 1), 2)) | {11, 13}
+            for k in range(1, nchunks + 2):
+                out = os.path.join(d, "o.vcz")
+                shutil.rmtree(out, ignore_errors=True)
+                doc = dict(kind="partition-count-sweep", records=n, variants_chunk_size=vcs, partitions=k)
+                ctx.case(doc, nontrivial=True)
+                ctx.count("mode:init-sweep")
+                try:
+                    if k in full and k <= nchunks:
+                        pipeline.dencode(icf, out, k, order="shuffle", rnd=r, variants_chunk_size=vcs)
+                        check_store(ctx, doc, out, n, 2, expect_index=False)
+                        continue
+                    vcf2zarr.encode_init(icf, out, k, variants_chunk_size=vcs)
+                except Exception as e:  # noqa: BLE001
+                    ctx.fail(doc, dict(error=f"{type(e).__name__}: {e}"[:300]), "encode failed")
+                    continue
+                rows = {a: zarr.open(os.path.join(out, "wip", "arrays", a), mode="r").shape[0] for a in ("variant_position", "call_genotype")}
+                if set(rows.values()) != {n}:
+                    ctx.fail(doc, dict(rows=rows), f"produced store is not self-consistent: the arrays are created with {rows} rows for {n} records")
+    finally:
+        shutil.rmtree(d, ignore_errors=True)
 
 
 def replay(ctx, rep):
